@@ -125,3 +125,118 @@ func loopCarriedIndependent(phi *ssa.Phi, l ssaLoop) bool {
 	}
 	return true
 }
+
+// everyIterationAppends: in function f, for each loop whose body contains a
+// call satisfying produces(), the append of (something derived from) that
+// call's result dominates every latch of the loop: no element is skipped.
+// Returns (found, ok, detail).
+func everyIterationAppends(f *ssa.Function, produces func(c *ssa.Call) bool) (bool, bool, string) {
+	for _, l := range ssaLoops(f) {
+		body := l.body()
+		var prod *ssa.Call
+		for b := range body {
+			for _, in := range b.Instrs {
+				if c, ok := in.(*ssa.Call); ok && produces(c) {
+					prod = c
+				}
+			}
+		}
+		if prod == nil {
+			continue
+		}
+		// appends in the body that take the produced value
+		var appBlocks []*ssa.BasicBlock
+		for b := range body {
+			for _, in := range b.Instrs {
+				c, ok := in.(*ssa.Call)
+				if !ok {
+					continue
+				}
+				if bi, ok := c.Call.Value.(*ssa.Builtin); !ok || bi.Name() != "append" {
+					continue
+				}
+				// the variadic slice is built from an Alloc whose element store takes prod (possibly via MakeInterface/Extract)
+				if sl, ok := c.Call.Args[1].(*ssa.Slice); ok {
+					if al, ok := sl.X.(*ssa.Alloc); ok {
+						for _, ref := range *al.Referrers() {
+							ia, ok := ref.(*ssa.IndexAddr)
+							if !ok {
+								continue
+							}
+							for _, r2 := range *ia.Referrers() {
+								st, ok := r2.(*ssa.Store)
+								if !ok {
+									continue
+								}
+								v := st.Val
+								for {
+									switch x := v.(type) {
+									case *ssa.MakeInterface:
+										v = x.X
+										continue
+									case *ssa.ChangeInterface:
+										v = x.X
+										continue
+									case *ssa.Extract:
+										v = x.Tuple
+										continue
+									}
+									break
+								}
+								if v == ssa.Value(prod) {
+									appBlocks = append(appBlocks, b)
+								}
+							}
+						}
+					}
+				}
+			}
+		}
+		if len(appBlocks) == 0 {
+			return true, false, "the produced value is not appended inside the loop"
+		}
+		for _, lt := range l.Latches {
+			dom := false
+			for _, a := range appBlocks {
+				if a.Dominates(lt) {
+					dom = true
+				}
+			}
+			if !dom {
+				return true, false, "the loop head is re-entered from block " + lt.Comment + " without the append"
+			}
+		}
+		return true, true, ""
+	}
+	return false, false, "loop not found"
+}
+
+// everyIterationCalls: the innermost loop of f that contains a call satisfying
+// pred executes that call on every iteration (its block dominates every latch).
+func everyIterationCalls(f *ssa.Function, pred func(c ssa.CallInstruction) bool) (found, ok bool, why string) {
+	var best *ssaLoop
+	var callBlock *ssa.BasicBlock
+	loops := ssaLoops(f)
+	for i := range loops {
+		body := loops[i].body()
+		for b := range body {
+			for _, in := range b.Instrs {
+				if c, isC := in.(ssa.CallInstruction); isC && pred(c) {
+					if best == nil || len(body) < len(best.body()) {
+						best = &loops[i]
+						callBlock = b
+					}
+				}
+			}
+		}
+	}
+	if best == nil {
+		return false, false, "no loop contains the call"
+	}
+	for _, lt := range best.Latches {
+		if !callBlock.Dominates(lt) {
+			return true, false, "the loop head is re-entered from block " + lt.Comment + " without the call"
+		}
+	}
+	return true, true, ""
+}
